@@ -4,7 +4,7 @@ From Coq Require Import Ascii String.
 From Coq Require Import List ZArith NArith Bool Lia.
 From Coq.Strings Require Import Byte.
 From OgRek Require Import Base Utf8 GoStrconv PyQuote Float Value PyEq Encoder Norm Insn EncProg PyVM PyVal.
-From OgRek Require Import BaseFacts IntFacts EncoderFacts ExecFacts ProgFacts Utf8Facts QuoteFacts.
+From OgRek Require Import BaseFacts IntFacts EncoderFacts ExecFacts ProgFacts Utf8Facts QuoteFacts RueFacts.
 Import ListNotations.
 Open Scope N_scope.
 
@@ -143,13 +143,16 @@ Section PY.
 
   Lemma py_unicode : forall s x, pv_unicode c s = Some x -> pgood (enc_unicode c s) (p_unicode c s) x.
   Proof.
-    intros s x H. unfold pv_unicode, uni_ok in H.
-    destruct ((1 <=? e_proto c)%Z && len32 s && utf8_valid s) eqn:E; [|discriminate]. inversion H; subst.
-    apply andb_true_iff in E. destruct E as [E E3]. apply andb_true_iff in E. destruct E as [E1 E2].
-    unfold enc_unicode, p_unicode. cbv zeta. rewrite E1.
-    destruct ((Nlen s <? 256) && (4 <=? e_proto c)%Z) eqn:L; (apply pg_one; [apply wok_emit2|]); intros st; cbn [pstep].
-    - apply andb_true_iff in L. destruct L as [L _]. rewrite L, E3. reflexivity.
-    - unfold len32 in E2. rewrite E2, E3. reflexivity.
+    intros s x H. unfold pv_unicode, uni_ok in H. unfold enc_unicode, p_unicode. cbv zeta.
+    destruct (1 <=? e_proto c)%Z eqn:E1.
+    - destruct (len32 s && utf8_valid s) eqn:E; [|discriminate]. inversion H; subst.
+      apply andb_true_iff in E. destruct E as [E2 E3].
+      destruct ((Nlen s <? 256) && (4 <=? e_proto c)%Z) eqn:L; (apply pg_one; [apply wok_emit2|]); intros st; cbn [pstep].
+      + apply andb_true_iff in L. destruct L as [L _]. rewrite L, E3. reflexivity.
+      + unfold len32 in E2. rewrite E2, E3. reflexivity.
+    - destruct (pyencode_raw_unicode_escape s) as [e|] eqn:E; [|discriminate]. inversion H; subst.
+      destruct (rue_roundtrip s e E) as [D Nl]. apply pg_one; [apply wok_emit|]. intros st. cbn [pstep].
+      rewrite D. unfold IntFacts.no_lf in Nl. unfold PyVM.no_lf. rewrite Nl. reflexivity.
   Qed.
 
   Lemma py_string : forall s x, pv_string c s = Some x -> pgood (enc_string c s) (p_string c s) x.
@@ -240,12 +243,12 @@ Section PY.
     - unfold len32 in B. destruct (Nlen s <? 256) eqn:L; (apply pg_one; [apply wok_emit2|]); intros st; cbn [pstep].
       + rewrite L. reflexivity.
       + rewrite B. reflexivity.
-    - apply andb_true_iff in B. destruct B as [Hp Hl]. pose proof Hp as Hp'. apply Z.leb_le in Hp'.
-      unfold len32 in Hl. pose proof Hl as Hl'. apply N.ltb_lt in Hl'.
-      assert (PU : pv_unicode c (latin1_to_utf8 s) = Some (PUni (latin1_to_utf8 s))).
-      { unfold pv_unicode. rewrite uni_ok_small; [reflexivity|exact Hp'|exact Hl'|apply utf8_valid_latin1]. }
+    - assert (PU : pv_unicode c (latin1_to_utf8 s) = Some (PUni (latin1_to_utf8 s))).
+      { unfold pv_unicode, uni_ok. unfold uni_fits in B. destruct (1 <=? e_proto c)%Z.
+        - rewrite B. change (latin1_to_utf8 s) with (l1 s). rewrite utf8_valid_latin1. reflexivity.
+        - destruct (pyencode_raw_unicode_escape (latin1_to_utf8 s)); [reflexivity|discriminate]. }
       assert (PB : pv_bytestring c (bs "latin1") = Some (PStr (bs "latin1"))).
-      { unfold pv_bytestring. rewrite Hp. reflexivity. }
+      { unfold pv_bytestring. destruct (1 <=? e_proto c)%Z; reflexivity. }
       pose proof (py_unicode _ _ PU) as GU. pose proof (py_bytestring _ _ PB) as GB.
       assert (GM : pgood_many (wseq (enc_unicode c (latin1_to_utf8 s)) (enc_bytestring c (bs "latin1")))
                               (p_unicode c (latin1_to_utf8 s) ++ p_bytestring c (bs "latin1"))
@@ -288,12 +291,10 @@ Section PY.
     - apply pg_one; [apply wok_emit2|]. intros st. cbn [pstep]. rewrite B. reflexivity.
     - assert (PB : pv_bytes c s = Some (PBytes s)) by (unfold pv_bytes; rewrite B; reflexivity).
       pose proof (pg_many_one _ _ _ (py_bytes s _ PB)) as GM.
-      assert (P1 : (1 <= e_proto c)%Z).
-      { unfold bytes_ok in B. destruct (3 <=? e_proto c)%Z eqn:E3; [apply Z.leb_le in E3; lia|].
-        apply andb_true_iff in B. destruct B as [B _]. apply Z.leb_le in B. exact B. }
       assert (CO : pv_class_ok c (pybuiltin_mod c) (bs "bytearray") = true).
-      { unfold pybuiltin_mod. destruct (e_proto c <=? 2)%Z;
-          (apply class_ok_const; try reflexivity; (left; apply uni_ok_small; [exact P1|reflexivity|reflexivity])). }
+      { unfold pybuiltin_mod. destruct (e_proto c <=? 2)%Z eqn:E2.
+        - apply class_ok_const; try reflexivity; right; apply Z.leb_gt; apply Z.leb_le in E2; lia.
+        - apply Z.leb_gt in E2. apply class_ok_const; try reflexivity; (left; apply uni_ok_small; [lia|reflexivity|reflexivity]). }
       unfold wrap_call, p_call.
       destruct (py_class _ _ CO) as [Wc Pc].
       destruct (py_tuple _ _ [PBytes s] 1%nat eq_refl GM) as [Wt Pt].
